@@ -97,8 +97,13 @@ def prepare_answer(uid, ttl, abs_exp, res=None):
     else:
         # no data at the end of a CNAME chain that leaves the zone: the negative lifetime comes from
         # the SOA of the zone the chain ends in
-        r.answer.append(dns.rrset.from_text(qname, ttl + 300, "IN", "CNAME", "t.other.test."))
-        r.authority.append(dns.rrset.from_text("other.test.", ttl + (5 if uid % 2 else 0), "IN", "SOA", f"ns. h. 1 2 3 4 {ttl if uid % 2 else ttl + 9}"))
+        if (uid // 5) % 2:
+            r.answer.append(dns.rrset.from_text(qname, ttl + 300, "IN", "CNAME", "t.other.test."))
+            r.authority.append(dns.rrset.from_text("other.test.", ttl + (5 if uid % 2 else 0), "IN", "SOA", f"ns. h. 1 2 3 4 {ttl if uid % 2 else ttl + 9}"))
+        else:
+            # ... or from the CNAME on the way there when that one expires first
+            r.answer.append(dns.rrset.from_text(qname, ttl, "IN", "CNAME", "t.other.test."))
+            r.authority.append(dns.rrset.from_text("other.test.", ttl + 50, "IN", "SOA", f"ns. h. 1 2 3 4 {ttl + 9}"))
     r = dns.message.from_wire(r.to_wire())
     ans = _R.Answer(qname, dns.rdatatype.A, dns.rdataclass.IN, r)
     if abs(ans.expiration - abs_exp) > 1e-6:
@@ -314,7 +319,7 @@ def _gen_op(rng, kind, nkeys):
     if r < 0.83:
         return ["flushall"]
     if r < 0.88:
-        return ["resize", rng.choice([0, 1, 2, 3, 5])] if kind == "lru" else ["get", k]
+        return ["resize", rng.choice([-1, 0, 1, 2, 3, 5])] if kind == "lru" else ["get", k]
     if r < 0.92:
         return ["khits", k] if kind == "lru" else ["hits"]
     if r < 0.95:
@@ -362,7 +367,7 @@ def gen_case(seed, tier):
             ops = [_gen_op(rng, kind, nkeys) for _ in range(rng.choice([1, 2, 3, 5]))]
             if kind == "lru" and rng.random() < 0.3:
                 # resizes racing with evicting puts
-                ops.insert(rng.randrange(len(ops) + 1), ["resize", rng.choice([0, 1, 2, 5])])
+                ops.insert(rng.randrange(len(ops) + 1), ["resize", rng.choice([-3, 0, 1, 2, 5])])
                 ops.insert(rng.randrange(len(ops) + 1), ["put", rng.randrange(nkeys), None, rng.choice([1, 5, 60])])
             if rng.random() < 0.35:
                 # the clock moves while operations are in flight (another thread's time passes)
